@@ -43,6 +43,13 @@ HARNESS(h_stringview)
     CHECK((t > tn) == (s > sn), "operator>");
     CHECK((t <= tn) == (s <= sn), "operator<=");
     CHECK((t >= tn) == (s >= sn), "operator>=");
+    { // the overloads taking a std::string on either side answer like the view-view operators
+      std::string ns(nee, (size_t)NL);
+      CHECK((t == ns) == (s == sn) && (ns == t) == (sn == s) && (t != ns) == (s != sn) && (ns != t) == (sn != s), "operator== / != with std::string");
+      CHECK((t < ns) == (s < sn), "operator<(view, std::string)"); CHECK((ns < t) == (sn < s), "operator<(std::string, view)");
+      CHECK((t > ns) == (s > sn) && (ns > t) == (sn > s), "operator> with std::string");
+      CHECK((t <= ns) == (s <= sn) && (ns <= t) == (sn <= s), "operator<= with std::string");
+      CHECK((t >= ns) == (s >= sn) && (ns >= t) == (sn >= s), "operator>= with std::string"); }
     { int r1 = 0, r2 = 0; int e1 = run([&] { r1 = t.compare(pos, n, tn); }), e2 = run([&] { r2 = s.compare(pos, n, sn); });
       CHECK(e1 == e2 && (e1 != 0 || sgn(r1) == sgn(r2)), "compare(pos, n, view): same result or same kind of exception"); }
     { int r1 = 0, r2 = 0; int e1 = run([&] { r1 = t.compare(pos, n, tn, pos2, n2); }), e2 = run([&] { r2 = s.compare(pos, n, sn, pos2, n2); });
